@@ -23,6 +23,7 @@
   * `compose_complete`        form 0: success iff ±(nat bytes)·10^exp is representable; otherwise the range
                               error and `d` unchanged
   * `compose_success_iff`, `compose_error_iff`
+  * `compose_maxint32`        exp = MaxInt32, coefficient > Cmax: range error (the unguarded `exp++` wraps; benign)
   * `compose_spec`            all inputs: agreement with `Spec.composeExpect`
   * `compose_inf`, `compose_nan`, `compose_unknown_form`
   * `compose_decompose`, `compose_decompose_inf`, `compose_decompose_nan`   the round trip
@@ -192,6 +193,23 @@ example : ¬ Representable (2 ^ 114) 6111 := by
   have := member_ge (le_refl _) h
   rw [CS.Cmax_val] at this
   norm_num at this
+
+/-- `exp = MaxInt32` with a coefficient above `Cmax`: on the ≤ 16-byte path the Go code executes
+    `exp++` without a guard and the int32 WRAPS to MinInt32 (compose.go, `for sig128[1] > 0x0002_7fff…`);
+    the loop then ends within five passes and `exp < minUnbiasedExponent-maxDigits` reports the range
+    error — which is the right answer, so the wrap is benign (invariant `CS.T1`). -/
+theorem compose_maxint32 (d : Gen.Decimal) (neg : Bool) (bytes : Go.Bytes)
+    (hsz : bytes.size < 2 ^ 60) (hn : Spec.Cmax < Spec.beNat bytes) :
+    Gen.Decimal.Compose d 0 neg bytes 2147483647 = .ok (d, Go.Err.composeRangeError) := by
+  rw [compose_error_iff d neg bytes _ hsz, representable_iff]
+  intro h
+  have e : (2147483647 : Int32).toInt = 2147483647 := by decide
+  rw [e] at h
+  have := member_ge (by rw [CS.Emax_val]; decide) h
+  omega
+
+example : Spec.Cmax < Spec.beNat #[255, 255, 255, 255, 255, 255, 255, 255, 255, 255, 255, 255, 255, 255, 255, 255] := by
+  decide
 
 /-- all forms, signs, byte strings and exponents: `Compose` returns what `Spec.composeExpect` demands -/
 theorem compose_spec (d : Gen.Decimal) (form : UInt8) (neg : Bool) (bytes : Go.Bytes) (exp : Int32)
